@@ -103,9 +103,12 @@ CLAIMED = {
     "C17": dict(
         text="Theorems C17_histories / C17_peek_is_next / C17_nothing_after_end: for EVERY deterministic core and EVERY peek/next history "
              "the wrapper model (peek, next_event, next_event_impl) reports the results of plain iteration as specified, up to the first "
-             "error, and nothing after StreamEnd. The extracted specification spec_run is the oracle for exhaustive short and random "
-             "histories on the implementation; push (multi and repeated single) vs iterator compared event-for-event. The push "
-             "interface's recursive descent is not yet a theorem.",
+             "error, and nothing after StreamEnd. Theorem C17_push_is_iteration: for EVERY list of iteration results that is a prefix of an "
+             "event sentence (C02 proves this of the parser) the recursive-descent model of Parser::load pushes exactly the iterator's "
+             "events and returns the iterator's error (or Ok after a whole sentence); it never panics (unreachable!/assert_eq!) and never "
+             "reports an error of its own. The extracted spec_run is the oracle for exhaustive short and random histories on the "
+             "implementation; push (multi and repeated single) vs iterator compared event-for-event on two back-ends. Repeated "
+             "load(multi=false) is covered by the correspondence only.",
         ref="DESIGN.md 5/C17", tech="Rocq proof (wrapper over an abstract core, all histories) + extracted oracle + implementation-vs-implementation push/pull"),
     "C02": dict(
         text="Theorem C02_run: for EVERY token list the pull-parser model delivers a prefix of the event grammar, a complete "
